@@ -6,6 +6,8 @@ from ..tables import t10_flow
 def run(ctx: Ctx) -> None:
     t10_flow.run_flow(ctx)
     t10_flow.run_normalize(ctx)
+    t10_flow.run_default_axes(ctx)
+    ctx.floor("T10x.default-axes", 4)
     ctx.floor("T10x.axes", 8)
     ctx.floor("T10x.exp", 8)
     ctx.floor("T10x.warp", 8)
